@@ -41,7 +41,8 @@ type StlSeeded struct {
 }
 
 type StlCase struct {
-	K      string     `json:"k"` // "sw" | "sr" | "sb"
+	K      string     `json:"k"`             // "sw" | "sr" | "sb" | "sz"
+	Dir    string     `json:"dir,omitempty"` // "sz": "w" mesh -> file -> mesh, "r" records -> mesh -> file
 	Tag    string     `json:"tag"`
 	Enc    string     `json:"enc"`
 	Q      int        `json:"q"`
@@ -190,6 +191,9 @@ var unitDirs = [][]int{{60, 0, 0}, {0, -60, 0}, {0, 0, 60}, {36, 48, 0}, {0, 36,
 func stlSeededRecs(s StlSeeded) ([]GRec, []FRec) {
 	r := rand.New(rand.NewSource(s.Seed))
 	allZero := r.Intn(3) == 0
+	if s.Nrm != 0 {
+		allZero = s.Nrm == 2
+	}
 	g := []GRec{}
 	f := []FRec{}
 	for i := 0; i < s.NTris; i++ {
@@ -273,9 +277,9 @@ func emptyObs() StlObs { return StlObs{Idx: []int{}, Pos: [][]int{}, Nrm: [][]in
 
 func ioName(c StlCase) string { return readerModeName(c.Io) + "/" + writerModeName(c.Wio) }
 
-// stlRead gives the bytes to stl.ReadMesh through the reader variant (RdFile:
+// stlReadRaw gives the bytes to stl.ReadMesh through the reader variant (RdFile:
 // stl.Load of a file holding them).
-func stlRead(b []byte, enc Enc, mode int, id int) (string, string, StlObs, *modeling.Mesh) {
+func stlReadRaw(b []byte, mode int, id int) (string, string, StlObs, *modeling.Mesh) {
 	var got *modeling.Mesh
 	msg, detail := guard(func() error {
 		var err error
@@ -298,6 +302,15 @@ func stlRead(b []byte, enc Enc, mode int, id int) (string, string, StlObs, *mode
 		}
 		return err
 	})
+	if msg != "" {
+		return msg, detail, emptyObs(), nil
+	}
+	return "", "", emptyObs(), got
+}
+
+// stlRead: stlReadRaw and the projection of the mesh.
+func stlRead(b []byte, enc Enc, mode int, id int) (string, string, StlObs, *modeling.Mesh) {
+	msg, detail, _, got := stlReadRaw(b, mode, id)
 	if msg != "" {
 		return msg, detail, emptyObs(), nil
 	}
@@ -340,6 +353,94 @@ func stlWrite(m modeling.Mesh, mode int, id int) (string, string, []byte) {
 		return err
 	})
 	return msg, detail, out
+}
+
+// szLine: sizes only, for counts too large to judge record by record.
+//
+//	dir "w": seeded mesh of n triangles -> stl.WriteMesh -> f (sizes of the bytes) -> stl.ReadMesh -> rdn triangles
+//	dir "r": n seeded records -> (independent encoder) -> f -> stl.ReadMesh -> rdn -> stl.WriteMesh -> f2
+type szLine struct {
+	K    string  `json:"k"`
+	Id   int     `json:"id"`
+	Dir  string  `json:"dir"`
+	N    int     `json:"n"`
+	Werr string  `json:"werr"`
+	F    SzSizes `json:"f"`
+	Rerr string  `json:"rerr"`
+	RdN  int     `json:"rdn"`
+	F2   SzSizes `json:"f2"`
+	Note string  `json:"note"`
+	Io   string  `json:"io"`
+}
+
+// SzSizes: what ParseStl says about a byte string, without the records.
+type SzSizes struct {
+	Nbytes int `json:"nbytes"`
+	Count  int `json:"count"`
+	Rem    int `json:"rem"`
+	Nrecs  int `json:"nrecs"`
+}
+
+func stlSizes(b []byte) SzSizes {
+	z := SzSizes{Nbytes: len(b), Count: -1}
+	if len(b) < 84 {
+		z.Rem = len(b)
+		return z
+	}
+	c := le32(b[80:84])
+	if c > 1<<30 {
+		c = 1 << 30
+	}
+	z.Count = int(c)
+	z.Nrecs = (len(b) - 84) / 50
+	z.Rem = (len(b) - 84) % 50
+	return z
+}
+
+// meshTris: the number of triangles of a mesh through its public observers (-1: not a triangle list).
+func meshTris(m modeling.Mesh) int {
+	n := m.Indices().Len()
+	if n%3 != 0 {
+		return -1
+	}
+	return n / 3
+}
+
+func runSz(id int, c StlCase, keep string) szLine {
+	ln := szLine{K: "sz", Id: id, Dir: c.Dir, F: SzSizes{Count: -1}, F2: SzSizes{Count: -1}, RdN: -1, Io: ioName(c)}
+	if c.Dir == "w" {
+		m := stlBuildSeeded(*c.Seeded, c.Qn)
+		ln.N = meshTris(m)
+		var b []byte
+		ln.Werr, ln.Note, b = stlWrite(m, c.Wio, id)
+		if ln.Werr != "" {
+			return ln
+		}
+		ln.F = stlSizes(b)
+		var got *modeling.Mesh
+		ln.Rerr, ln.Note, _, got = stlReadRaw(b, c.Io, id)
+		if ln.Rerr == "" {
+			ln.RdN = meshTris(*got)
+		}
+		return ln
+	}
+	_, recs := stlSeededRecs(*c.Seeded)
+	ln.N = len(recs)
+	b := EncodeStl(recs, stlTitle(id))
+	ln.F = stlSizes(b)
+	var got *modeling.Mesh
+	ln.Rerr, ln.Note, _, got = stlReadRaw(b, c.Io, id)
+	if ln.Rerr != "" {
+		return ln
+	}
+	ln.RdN = meshTris(*got)
+	var b2 []byte
+	ln.Werr, ln.Note, b2 = stlWrite(*got, c.Wio, id)
+	if ln.Werr != "" {
+		return ln
+	}
+	ln.F2 = stlSizes(b2)
+	return ln
 }
 
 func runSw(id int, c StlCase, keep string) swLine {
@@ -528,6 +629,10 @@ func RunStlCases(in, out, keep string) error {
 			}
 		case "sb":
 			if err := encj.Encode(runSb(cid, c, keep)); err != nil {
+				return err
+			}
+		case "sz":
+			if err := encj.Encode(runSz(cid, c, keep)); err != nil {
 				return err
 			}
 		default:
